@@ -13,13 +13,18 @@ package centrifuge
 //	pub tag=<n> size=<n> ttl=<s>                -> off=<o> ep=<epoch index>
 //	remove                                      -> ok
 //	adv n=<s>                                   -> ok
-//	sub [via=cmd|connect] mode=stream|cache rec= auto= off= ep= rej= delta= cf= sf= h=
+//	sub [via=cmd|connect] mode=stream|cache rec= auto= off= ep= rej= delta= cf= sf= h= [w=<window>]
 //	     -> rec=<0|1> pubs=<off:id,…> off=<o> ep=<e> pos=<o> was=<0|1> | err=<code> | disc=<code>
 //
 // via=cmd (default): client subscribe command (handleSubscribe).  via=connect: a server-side
 // subscription returned by OnConnecting (ConnectReply.Subscriptions) whose recovery position comes
 // from ConnectRequest.Subs[channel] (connectCmd copies Recover/Offset/Epoch/Delta only: no client
 // tags filter and no reject flag exist on that path, so cf must be - and rej 0).
+//
+// w = events joined by + that happen right after the subscribe's (first) History call returned, i.e.
+// while the subscribe is in flight: p<tag>.<size>.<ttl> publishes, s<k> re-delivers through the
+// broker's event handler the publication k below the top that History just reported (a lagging
+// PUB/SUB copy).  The real MemoryBroker is wrapped only to get that hook.
 //
 // Epoch strings are replaced by their first-seen index (1, 2, …); request epoch 0 = "", an index
 // not seen yet = a foreign string.
@@ -53,9 +58,32 @@ type verifRecSub struct {
 	handlerOffsets []string
 }
 
+// verifRecBroker is the real MemoryBroker plus a one-shot hook that runs after History produced its
+// result and before the result is handed back.
+type verifRecBroker struct {
+	*MemoryBroker
+	after func(sp StreamPosition)
+}
+
+func (b *verifRecBroker) History(ch string, opts HistoryOptions) ([]*Publication, StreamPosition, error) {
+	pubs, sp, err := b.MemoryBroker.History(ch, opts)
+	if err == nil && b.after != nil {
+		f := b.after
+		b.after = nil
+		f(sp)
+	}
+	return pubs, sp, err
+}
+
+type verifRecPub struct {
+	tag, id int
+}
+
 type verifRecScenario struct {
 	t      *testing.T
 	node   *Node
+	broker *verifRecBroker
+	pubs   map[string]map[uint64]verifRecPub
 	epochs map[string]int
 	nextID int
 	cur    *verifRecSub
@@ -122,25 +150,49 @@ func (s *verifRecScenario) epochString(i int) string {
 	return "foreign" + strconv.Itoa(i)
 }
 
-func (s *verifRecScenario) publish(tag, size, ttl int) (StreamPosition, error) {
-	id := s.nextID
-	s.nextID++
+func verifRecTags(tag, id int) map[string]string {
 	tags := map[string]string{"id": strconv.Itoa(id)}
 	if tag > 0 {
 		tags["t"] = strconv.Itoa(tag)
 	}
+	return tags
+}
+
+func (s *verifRecScenario) publish(tag, size, ttl int) (StreamPosition, error) {
+	id := s.nextID
+	s.nextID++
 	res, err := s.node.Publish(verifRecChannel, []byte(`{"id":`+strconv.Itoa(id)+`}`),
-		WithHistory(size, time.Duration(ttl)*time.Second), WithTags(tags))
+		WithHistory(size, time.Duration(ttl)*time.Second), WithTags(verifRecTags(tag, id)))
+	if err == nil {
+		if s.pubs[res.Epoch] == nil {
+			s.pubs[res.Epoch] = map[uint64]verifRecPub{}
+		}
+		s.pubs[res.Epoch][res.Offset] = verifRecPub{tag: tag, id: id}
+	}
 	return res.StreamPosition, err
+}
+
+// redeliver hands a copy of an already published publication to the node once more, the way a
+// lagging PUB/SUB message would arrive.
+func (s *verifRecScenario) redeliver(epoch string, offset uint64) {
+	p, ok := s.pubs[epoch][offset]
+	if !ok {
+		return
+	}
+	pub := &Publication{
+		Offset: offset,
+		Data:   []byte(`{"id":` + strconv.Itoa(p.id) + `}`),
+		Tags:   verifRecTags(p.tag, p.id),
+		Time:   time.Now().UnixMilli(),
+	}
+	_ = s.broker.MemoryBroker.eventHandler.HandlePublication(verifRecChannel, pub,
+		StreamPosition{Offset: offset, Epoch: epoch}, false, nil)
 }
 
 // peek reports the broker's retained list without going through History (which would create the
 // stream and refresh its meta deadline): `-` or top/epoch/len/first/last.
 func (s *verifRecScenario) peek() string {
-	mb, ok := s.node.broker.(*MemoryBroker)
-	if !ok {
-		return "?"
-	}
+	mb := s.broker.MemoryBroker
 	mb.historyHub.RLock()
 	defer mb.historyHub.RUnlock()
 	stream, ok := mb.historyHub.streams[verifRecChannel]
@@ -164,6 +216,13 @@ func (s *verifRecScenario) start(meta, limit int) error {
 	if err != nil {
 		return err
 	}
+	mb, err := NewMemoryBroker(node, MemoryBrokerConfig{})
+	if err != nil {
+		return err
+	}
+	s.broker = &verifRecBroker{MemoryBroker: mb}
+	node.SetBroker(s.broker)
+	s.pubs = map[string]map[uint64]verifRecPub{}
 	s.node = node
 	s.epochs = map[string]int{}
 	s.nextID = 1
@@ -284,7 +343,67 @@ func (s *verifRecScenario) sub(ws []string) string {
 			}
 		}
 	}
+	wS, hasW := verifRecKV(ws, "w")
+	if !hasW {
+		wS = "-"
+	}
+	type wev struct {
+		stale bool
+		k     uint64
+		p     [3]int
+	}
+	var window []wev
+	if wS != "-" {
+		if mode == "cache" {
+			return "bad-op"
+		}
+		for _, es := range strings.Split(wS, "+") {
+			if len(es) < 2 {
+				return "bad-op"
+			}
+			switch es[0] {
+			case 's':
+				k, err := strconv.ParseUint(es[1:], 10, 64)
+				if err != nil {
+					return "bad-op"
+				}
+				window = append(window, wev{stale: true, k: k})
+			case 'p':
+				f := strings.Split(es[1:], ".")
+				if len(f) != 3 {
+					return "bad-op"
+				}
+				var tr [3]int
+				for i := range f {
+					n, err := strconv.Atoi(f[i])
+					if err != nil || n < 0 {
+						return "bad-op"
+					}
+					tr[i] = n
+				}
+				window = append(window, wev{p: tr})
+			default:
+				return "bad-op"
+			}
+		}
+	}
 	s.cur = cur
+	s.broker.after = nil
+	if len(window) > 0 {
+		s.broker.after = func(sp StreamPosition) {
+			for _, e := range window {
+				if e.stale {
+					if sp.Offset >= e.k && sp.Offset-e.k >= 1 {
+						s.redeliver(sp.Epoch, sp.Offset-e.k)
+					}
+					continue
+				}
+				if wsp, err := s.publish(e.p[0], e.p[1], e.p[2]); err == nil {
+					cur.handlerOffsets = append(cur.handlerOffsets, strconv.FormatUint(wsp.Offset, 10))
+				}
+			}
+		}
+	}
 	if cur.handlerSet {
 		s.node.OnCacheEmpty(s.cacheEmpty)
 	} else {
@@ -404,6 +523,7 @@ func (s *verifRecScenario) sub(ws []string) string {
 			out += " flags-missing"
 		}
 	}
+	s.broker.after = nil
 	_ = client.close(DisconnectForceNoReconnect)
 	synctest.Wait()
 	return fmt.Sprintf("%s pre=%s post=%s hi=%d hp=%s", out, pre, s.peek(), cur.handlerInvoked, strings.Join(cur.handlerOffsets, ","))
